@@ -21,6 +21,7 @@ import (
 	"os"
 	"os/exec"
 	"path/filepath"
+	"regexp"
 	"sort"
 	"strings"
 
@@ -127,7 +128,12 @@ func main() {
 	only := flag.String("files", "", "comma separated file bases (default all)")
 	rseed := flag.Int64("rseed", 0, "seed of the random schemas")
 	nrand := flag.Int("nrandom", 0, "number of seeded random schema files")
+	paramProbe := flag.String("paramprobe", "", "file with the TLC-generated PARAM lines: run the plug-in once per (key, value) and write <out>/params.ndjson")
 	flag.Parse()
+	if *paramProbe != "" {
+		probeParams(*paramProbe, *plugins, *out)
+		return
+	}
 	if *out == "" || *plugins == "" {
 		fmt.Fprintln(os.Stderr, "usage: corpusgen -out dir -plugins dir")
 		os.Exit(2)
@@ -352,4 +358,54 @@ func writeFile(p, content string) {
 		fmt.Fprintln(os.Stderr, err)
 		os.Exit(2)
 	}
+}
+
+var reParam = regexp.MustCompile(`<<"PARAM", "([^"]*)", "([^"]*)">>`)
+
+// probeParams (C16, spec -> code): the plug-in is run on one small file with every (key, value) pair TLC printed from the bounded parameter
+// domain of MCGenerator; a pair is accepted when the plug-in reports no error and emits a file.  An empty value is tried as "key=" and as
+// the bare "key".
+func probeParams(domain, plugins, out string) {
+	raw, err := os.ReadFile(domain)
+	if err != nil {
+		fmt.Fprintln(os.Stderr, err)
+		os.Exit(2)
+	}
+	fd := &descriptorpb.FileDescriptorProto{
+		Name: proto.String("probe/probe.proto"), Package: proto.String("verif.probe"), Syntax: proto.String("proto3"),
+		Options: &descriptorpb.FileOptions{GoPackage: proto.String("verif/corp/probe;probe")},
+		MessageType: []*descriptorpb.DescriptorProto{{Name: proto.String("P"), Field: []*descriptorpb.FieldDescriptorProto{
+			{Name: proto.String("size"), Number: proto.Int32(1), Type: descriptorpb.FieldDescriptorProto_TYPE_INT32.Enum(), Label: descriptorpb.FieldDescriptorProto_LABEL_OPTIONAL.Enum(), JsonName: proto.String("size")}}}},
+	}
+	os.MkdirAll(out, 0o755)
+	f, err := os.Create(filepath.Join(out, "params.ndjson"))
+	if err != nil {
+		fmt.Fprintln(os.Stderr, err)
+		os.Exit(2)
+	}
+	defer f.Close()
+	n := 0
+	for _, m := range reParam.FindAllStringSubmatch(string(raw), -1) {
+		k, v := m[1], m[2]
+		forms := []string{k + "=" + v}
+		if v == "" {
+			forms = append(forms, k)
+		}
+		for _, form := range forms {
+			req := &pluginpb.CodeGeneratorRequest{FileToGenerate: []string{"probe/probe.proto"}, Parameter: proto.String("paths=source_relative," + form),
+				ProtoFile: []*descriptorpb.FileDescriptorProto{fd}, CompilerVersion: &pluginpb.Version{Major: proto.Int32(5), Minor: proto.Int32(28), Patch: proto.Int32(3)}}
+			resp, errs := runPlugin(filepath.Join(plugins, "protoc-gen-fastmarshal"), req, out, nil)
+			ok := 0
+			if errs == "" && resp != nil && len(resp.File) > 0 {
+				ok = 1
+			}
+			if len(errs) > 200 {
+				errs = errs[:200]
+			}
+			b, _ := json.Marshal(map[string]interface{}{"c": "param", "k": k, "v": v, "form": form, "ok": ok, "err": errs})
+			f.Write(append(b, '\n'))
+			n++
+		}
+	}
+	fmt.Printf("{\"param_runs\": %d}\n", n)
 }
